@@ -256,6 +256,8 @@ const LINE_POOL: &[char] = &[
     // the non-ASCII sources of the normaliser table, four of which change their character type
     // under normalisation (the dashes become the katakana prolonged sound mark)
     '－', '―', '─', '–', '～', '､', '･', '｢', '｣', 'ー', 'メ',
+    // first / last scalar values of the UTF-8 lead-byte classes, Thai and Devanagari (lead 0xE0)
+    '\u{7f}', '\u{80}', '\u{7ff}', '\u{800}', 'ส', 'न', '\u{fff}', '\u{1000}', '\u{d7ff}', '\u{e000}', '\u{ffff}', '\u{10000}', '\u{10ffff}',
 ];
 
 fn lines_strategy() -> impl Strategy<Value = Vec<Vec<u16>>> {
